@@ -37,7 +37,8 @@ pub struct Violation {
 #[derive(Clone, Debug)]
 pub enum Obs {
     /// language of a result term: fingerprint + canonical DFA (None = opaque), nullable flag
-    Lang(u64, Option<Arc<Dfa>>, bool),
+    /// + hash of the printed structure of the term (independent of ids)
+    Lang(u64, Option<Arc<Dfa>>, bool, u64),
     Bool(bool),
     Text(Vec<u32>),
     Faulted,
@@ -940,6 +941,11 @@ impl<'t> World<'t> {
             info.dfa.as_ref().map(|d| d.fingerprint()).unwrap_or(0),
             info.dfa.clone(),
             re.nullable,
+            {
+                let mut h = DetHasher::new();
+                h.write_str(&format!("{}", re));
+                h.finish()
+            },
         );
         self.push_obs(ci, st.op.name(), obs);
         self.clients[ci].pool.push(Handle {
@@ -1273,6 +1279,11 @@ impl<'t> World<'t> {
             info.dfa.as_ref().map(|d| d.fingerprint()).unwrap_or(0),
             info.dfa.clone(),
             re.nullable,
+            {
+                let mut h = DetHasher::new();
+                h.write_str(&format!("{}", re));
+                h.finish()
+            },
         );
         self.push_obs(ci, st.op.name(), obs);
         self.clients[ci].pool.push(Handle {
